@@ -34,9 +34,9 @@ def concrete_outcome(nodes, spec, edges):
 
 def work(inst: dict) -> dict:
     spec = RuleSpec.from_json(inst["spec"])
-    nodes = concrete(inst["tree"], inst["naming"])
+    nodes = c01.nodes_of(inst)
     label = f"{inst['tree']}/{inst['naming']}: {spec.label()}"
-    arch = SymArch(nodes)
+    arch = c01.arch_of(inst, nodes)
     before = solver().stats()
 
     def fn():
